@@ -43,6 +43,8 @@ static long obj_index(var p) { for (long i = 0; i < NOBJ; i++) if (p == obj(i)) 
 static int64_t oval(var p) { return *(int64_t*)p; }
 bool verif_eq(var a, var b) { return oval(a) == oval(b); }
 static bool v_lt(var a, var b) { return oval(a) < oval(b); }
+static var mark_gc = NULL; static var mark_seen[LMAX]; static int mark_n = 0; static _Bool mark_gc_ok = 1;
+static void mark_rec(var gc, void* p) { if (gc != mark_gc) mark_gc_ok = 0; if (mark_n < LMAX) mark_seen[mark_n] = p; mark_n++; }
 
 #define OP_PUSH 1
 #define OP_POP 2
@@ -58,6 +60,8 @@ static bool v_lt(var a, var b) { return oval(a) < oval(b); }
 #define OP_BAD_INDEX 12
 #define OP_POP_EMPTY 13
 #define OP_ASSIGN 14
+#define OP_MARK 15
+#define OP_REM_CALLS 16
 
 static long R[LMAX]; static size_t rn;
 static struct Tuple* make_tuple(size_t n, const unsigned char* sel) {
@@ -72,6 +76,16 @@ static _Bool agrees(struct Tuple* t) {
   if (vcw_size(t->items) < (rn + 1) * sizeof(var)) return 0;       /* items and the terminator lie inside the allocation */
   for (size_t i = 0; i < LMAX; i++) if (i < rn && t->items[i] != obj(R[i])) return 0;
   return t->items[rn] == Terminal && Tuple_Len(t) == rn;
+}
+/* OP_REM_CALLS: Tuple_Rem over a model of its callee.  Tuple_Pop_At's own contract (deletes item i, keeps the rest in
+ * order and the terminator in place) is decided by the pop_at obligations; here it is an in-place shift that counts
+ * its calls, so that what Tuple_Rem adds -- WHICH index it deletes and that it deletes ONE -- is decided cheaply */
+static int popat_calls = 0; static int64_t popat_idx[2];
+void verif_pop_at_stub(var self, var key) {
+  struct Tuple* t = self; int64_t i = c_int(key);
+  if (popat_calls < 2) popat_idx[popat_calls] = i; popat_calls++;
+  _Bool shifting = 0;
+  for (size_t k = 0; k < LMAX; k++) { if (t->items[k] == Terminal) break; if ((int64_t)k == i) shifting = 1; if (shifting) t->items[k] = t->items[k + 1]; }
 }
 static var expect_throw = NULL; static struct Tuple* snap_t; static var snap_items[LMAX];
 static void snapshot(struct Tuple* t) { snap_t = t; for (size_t i = 0; i < LMAX; i++) if (i <= rn) snap_items[i] = t->items[i]; }
@@ -127,6 +141,12 @@ V_HARNESS {
     for (size_t i = 0; i < LMAX - 1; i++) if (i >= (size_t)at && i + 1 < rn) R[i] = R[i + 1];
     rn--; }
   V_WITNESS("rem done"); V_ASSERT(agrees(t), "rem: deletes the FIRST item equal to the argument");
+#elif OP == OP_REM_CALLS
+  { long at = -1; for (size_t i = 0; i < L; i++) if (i < rn && at < 0 && IN.oval[R[i]] == IN.oval[x]) at = (long)i;
+    Tuple_Rem(t, obj(x));
+    V_WITNESS("rem returned");
+    if (at >= 0) V_ASSERT(popat_calls == 1 && popat_idx[0] == at, "rem: exactly ONE item is deleted, the first one equal to the argument (later equal items stay)");
+    else V_ASSERT(popat_calls == 0, "rem: nothing is deleted when no item equals the argument"); }
 #elif OP == OP_MEM
   { _Bool present = 0; for (size_t i = 0; i < L; i++) if (i < rn && IN.oval[R[i]] == IN.oval[x]) present = 1;
     _Bool m;
@@ -164,6 +184,13 @@ V_HARNESS {
     c = Tuple_Iter_Last(t);
     for (int s = 0; s < L + 2 && c != Terminal; s++) { if (cb >= n || c != obj(R[n - 1 - cb])) ok = 0; cb++; c = Tuple_Iter_Prev(t, c); }
     V_ASSERT(c == Terminal && ok && cb == n, "backward iteration: the same items in reverse order, then Terminal (also for the empty Tuple)"); }
+#elif OP == OP_MARK
+  { static uint64_t gcobj[2]; mark_gc = &gcobj[1];
+    Tuple_Mark(t, mark_gc, mark_rec);
+    V_WITNESS("mark done");
+    _Bool ok = mark_n == (int)n;
+    for (size_t i = 0; i < L; i++) if (i < n && mark_seen[i] != obj(R[i])) ok = 0;
+    V_ASSERT(ok && mark_gc_ok, "every item of the heap Tuple is handed to the collector exactly once, with the collector it was given (C01)"); }
 #elif OP == OP_BAD_INDEX
   V_ASSUME(idx < -(int64_t)n || idx >= (int64_t)n);
   snapshot(t); expect_throw = IndexOutOfBoundsError;
